@@ -685,6 +685,11 @@ class Interp:
     def getattr(self, v, name):
         w = self.world
         if isinstance(v, Obj):
+            if getattr(v.cls, 'node', None) is not None and not name.startswith('__'):
+                # a data descriptor on the class (property) takes precedence over the instance dictionary
+                m = w.find_method(v.cls, name)
+                if m is not None and any(ast.unparse(d).split('.')[-1] in ('property', 'cached_property', 'setter', 'getter') for d in getattr(m.node, 'decorator_list', [])):
+                    raise Unsupported('attribute %s.%s is a property (descriptors are not modelled)' % (v.cls.name, name))
             if name in v.fields:
                 return v.fields[name]
             if name == '__class__':
